@@ -32,7 +32,9 @@ Closed(pc) == FSCirc(pc) = {}
 SqrtVal(c0) == CASE c0 = 1 -> <<1, 3>> [] c0 = 2 -> <<1, 2>> [] c0 = 4 -> <<1, 1>> [] c0 = 8 -> <<1, 0>>
                  [] c0 = 16 -> <<2, 1>> [] c0 = 32 -> <<2, 0>>          \* <<re, s>> : re / sqrt2^s
 Ground(g) == IF g.par = 0 THEN g
-             ELSE IF g.k = "sqrt" THEN [g EXCEPT !.k = "scalar", !.re = SqrtVal(g.pf.c0)[1], !.im = 0, !.s = SqrtVal(g.pf.c0)[2]]
+             ELSE IF g.k = "sqrt" /\ g.pf.c0 > 0 THEN [g EXCEPT !.k = "scalar", !.re = SqrtVal(g.pf.c0)[1], !.im = 0, !.s = SqrtVal(g.pf.c0)[2]]
+             \* the principal root of a negative number:  sqrt(-a) = i sqrt(a)
+             ELSE IF g.k = "sqrt" THEN [g EXCEPT !.k = "scalar", !.re = 0, !.im = SqrtVal(0 - g.pf.c0)[1], !.s = SqrtVal(0 - g.pf.c0)[2]]
              ELSE IF g.k \in {"scalar", "mscalar"} THEN [g EXCEPT !.re = g.pf.c0, !.im = 0, !.s = 6]
              ELSE [g EXCEPT !.ph = g.pf.c0]
 GroundCirc(pc) == [ty |-> pc.ty, layers |-> [k \in 1..Len(pc.layers) |-> [pc.layers[k] EXCEPT !.g = Ground(pc.layers[k].g)]]]
